@@ -529,6 +529,7 @@ def inline_new_helpers(bodies, known):
         fd = by_path.get(p)
         if fd is not None:
             _prune_unreachable(fd)
+            _resolve_ref_stores(fd)
     # helpers whose every call site was inlined are gone from the program
     still_called = set()
     for p, fd in by_path.items():
@@ -574,6 +575,8 @@ ADTS = {}      # enum path -> [variant names], set by facts.Facts before inlinin
 
 
 def _discr_index(kv):
+    if kv[0] == "__tuple__":
+        return None
     if len(kv) > 3 and kv[3] is not None:
         return kv[3]
     return _DISCR.get(kv[0])
@@ -667,7 +670,7 @@ def _thread_variant_returns(fd, nb, off, dest, target):
         b["term"]["target"] = mapping[b["term"]["target"]]
 
 
-def _clone_chain(fd, start, known, avoid=None, assigned=None, arm=False):
+def _clone_chain(fd, start, known, avoid=None, assigned=None, arm=False, calls=0):
     """Clone blocks from `start` while every decision is determined by `known` (local -> (variant, payload, operand)).
     Returns the index of the first cloned block, or None if no switch could be decided.  Blocks in `avoid` (loop
     headers) are never cloned: peeling a header's test gives the loop a second entry."""
@@ -717,6 +720,10 @@ def _clone_chain(fd, start, known, avoid=None, assigned=None, arm=False):
                     known[x] = known[pl["local"]]
                 elif not pl["proj"] and pl["local"] in consts:
                     consts[x] = consts[pl["local"]]
+                elif len(pl["proj"]) == 1 and pl["proj"][0]["p"] == "field" and pl["local"] in known and known[pl["local"]][0] == "__tuple__":
+                    fk = known[pl["local"]][1].get(str(pl["proj"][0].get("name")))
+                    if fk is not None:
+                        known[x] = fk
                 elif len(pl["proj"]) == 2 and pl["proj"][0]["p"] == "downcast" and pl["proj"][1]["p"] == "field" and pl["proj"][1].get("name") == "0" and pl["local"] in known:
                     kv = known[pl["local"]]
                     if kv[0] == pl["proj"][0]["variant"] and kv[1] is not None:
@@ -733,6 +740,18 @@ def _clone_chain(fd, start, known, avoid=None, assigned=None, arm=False):
         t = nbk["term"]
         if t["t"] == "goto" or (t["t"] == "drop" and t.get("target") is not None):
             # (a drop on the way - the guard of a helper that was inlined - is executed once on every path, copy or not)
+            prev = idx
+            cur = t["target"]
+            continue
+        if t["t"] == "call" and calls > 0 and t.get("target") is not None and not (_is_branch(t) and t["args"] and t["args"][0]["k"] in ("move", "copy") and not t["args"][0]["place"]["proj"] and t["args"][0]["place"]["local"] in known):
+            # the value is a constant of one of the crate's own fieldless enums (`Link::Left` handed to a helper that
+            # was inlined here): the test of it lies behind a few ordinary calls of that helper (seek, write); the way
+            # there is copied through them, so that the helper's `match` is decided per caller's arm
+            calls -= 1
+            if not t["dest"]["proj"]:
+                known.pop(t["dest"]["local"], None)
+                consts.pop(t["dest"]["local"], None)
+                assigned.add(t["dest"]["local"])
             prev = idx
             cur = t["target"]
             continue
@@ -753,11 +772,11 @@ def _clone_chain(fd, start, known, avoid=None, assigned=None, arm=False):
             decided += 1
             # stop after the decision unless the arm is again a pure decision block
             nxt = fd["blocks"][tgt]
-            if nxt["term"]["t"] in ("switch", "goto", "drop") or (nxt["term"]["t"] == "call" and _is_branch(nxt["term"])):
+            if nxt["term"]["t"] in ("switch", "goto", "drop") or (nxt["term"]["t"] == "call" and (_is_branch(nxt["term"]) or calls > 0)):
                 # continue threading through the chosen arm
                 prev_switch = idx
                 cur = tgt
-                sub = _clone_chain(fd, cur, known, avoid, assigned, arm=True)
+                sub = _clone_chain(fd, cur, known, avoid, assigned, arm=True, calls=calls)
                 if sub is not None:
                     if val in arms:
                         nbk["term"]["arms"] = [[val, sub]]
@@ -853,6 +872,38 @@ def thread_local_variants(fd):
     n0 = len(fd["blocks"])
     heads = _loop_headers(fd)
     did = False
+    # locals that hold, through their only definition in the whole body, a constant of one of the crate's own
+    # fieldless enums (an argument `Link::Left` bound to an inlined helper's parameter): a copy of such a local made
+    # anywhere later is that constant too
+    ndefs, cdef = {}, {}
+    for b_ in fd["blocks"]:
+        if b_.get("cleanup"):
+            continue
+        for st_ in b_["stmts"]:
+            if st_["s"] == "assign" and not st_["place"]["proj"]:
+                l_ = st_["place"]["local"]
+                ndefs[l_] = ndefs.get(l_, 0) + 1
+                rv_ = st_["rv"]
+                if rv_["r"] == "use" and rv_["op"]["k"] == "const" and rv_["op"].get("variant") and rv_["op"].get("enum") in ADTS and rv_["op"]["variant"] in ADTS[rv_["op"]["enum"]]:
+                    cdef[l_] = (rv_["op"]["variant"], None, None, ADTS[rv_["op"]["enum"]].index(rv_["op"]["variant"]))
+                elif rv_["r"] == "aggregate" and rv_.get("agg") == "adt" and rv_.get("adt") in ADTS and rv_.get("variant") in ADTS[rv_["adt"]] and not rv_.get("ops"):
+                    cdef[l_] = (rv_["variant"], None, None, ADTS[rv_["adt"]].index(rv_["variant"]))
+        t_ = b_["term"]
+        if t_["t"] == "call" and not t_["dest"]["proj"]:
+            ndefs[t_["dest"]["local"]] = ndefs.get(t_["dest"]["local"], 0) + 1
+    single_const = {l_: kv_ for l_, kv_ in cdef.items() if ndefs.get(l_) == 1 and l_ > fd.get("arg_count", 0)}
+    changed_ = True
+    while changed_:
+        changed_ = False
+        for b_ in fd["blocks"]:
+            if b_.get("cleanup"):
+                continue
+            for st_ in b_["stmts"]:
+                if st_["s"] == "assign" and not st_["place"]["proj"] and st_["rv"]["r"] == "use" and st_["rv"]["op"]["k"] in ("copy", "move") and not st_["rv"]["op"]["place"]["proj"]:
+                    a_, s_ = st_["place"]["local"], st_["rv"]["op"]["place"]["local"]
+                    if s_ in single_const and a_ not in single_const and ndefs.get(a_) == 1 and a_ > fd.get("arg_count", 0):
+                        single_const[a_] = single_const[s_]
+                        changed_ = True
     for j in range(n0):
         b = fd["blocks"][j]
         if b["cleanup"] or b["term"]["t"] != "goto" or len(fd["blocks"]) > 3 * n0 + 100:
@@ -867,10 +918,29 @@ def thread_local_variants(fd):
                     cands[st["place"]["local"]] = i
                 elif rv["r"] == "aggregate" and rv.get("agg") == "adt" and rv.get("adt") in ADTS and not rv.get("ops") and st["place"]["local"] != 0:
                     cands[st["place"]["local"]] = i
+                elif rv["r"] == "use" and rv["op"]["k"] in ("copy", "move") and not rv["op"]["place"]["proj"] and rv["op"]["place"]["local"] in single_const and st["place"]["local"] != 0 and not b.get("clone"):
+                    cands[st["place"]["local"]] = i
+                elif rv["r"] == "aggregate" and rv.get("agg") == "tuple" and st["place"]["local"] != 0 and not b.get("clone") and len(rv.get("ops", [])) <= 4:
+                    cands[st["place"]["local"]] = i
                 else:
                     cands.pop(st["place"]["local"], None)
         for L, i in cands.items():
             kv = _agg_variant(b, i + 1, L)
+            if kv is None:
+                rv_i = b["stmts"][i]["rv"]
+                if rv_i["r"] == "aggregate" and rv_i.get("agg") == "tuple" and all(not (st2["s"] == "assign" and st2["place"]["local"] == L) for st2 in b["stmts"][i + 1:]):
+                    fields_ = {}
+                    for k_, o_ in enumerate(rv_i.get("ops", [])):
+                        if o_["k"] == "const" and o_.get("variant") and o_.get("enum") in ADTS and o_["variant"] in ADTS[o_["enum"]]:
+                            fields_[str(k_)] = (o_["variant"], None, None, ADTS[o_["enum"]].index(o_["variant"]))
+                        elif o_["k"] in ("copy", "move") and not o_["place"]["proj"]:
+                            fk_ = _agg_variant(b, i, o_["place"]["local"]) or single_const.get(o_["place"]["local"])
+                            if fk_ is not None and len(fk_) > 3 and fk_[0] != "__tuple__":
+                                fields_[str(k_)] = fk_
+                    if fields_:
+                        kv = ("__tuple__", fields_, None, None)
+                if kv is None and rv_i["r"] == "use" and rv_i["op"]["k"] in ("copy", "move") and not rv_i["op"]["place"]["proj"] and rv_i["op"]["place"]["local"] in single_const and all(not (st2["s"] == "assign" and st2["place"]["local"] == L) for st2 in b["stmts"][i + 1:]):
+                    kv = single_const[rv_i["op"]["place"]["local"]]
             if kv is None:
                 continue
             later = {st["place"]["local"] for st in b["stmts"][i + 1:] if st["s"] == "assign"}
@@ -886,7 +956,8 @@ def thread_local_variants(fd):
                         kn.pop(st["place"]["local"], None)
             if L not in kn:
                 kn[L] = kv
-            head = _clone_chain(fd, b["term"]["target"], kn, heads, later)
+            own_enum = len(kv) > 3
+            head = _clone_chain(fd, b["term"]["target"], kn, heads, later, calls=(10 if own_enum else 0))
             if head is not None:
                 b["term"]["target"] = head
                 did = True
@@ -919,3 +990,54 @@ def _dead_block(fd, span):
 def _is_branch(t):
     c = (t.get("callee") or "") + " " + (t.get("resolved") or "")
     return "Try>::branch" in c or "Try::branch" in c
+
+
+def _resolve_ref_stores(fd):
+    """`*helper_that_returns_a_field(&mut entry) = v`, once the helper is inlined and its arm decided, reads
+    `_r = &mut (*e).left_sibling; (*_r) = v`.  A store through a reference that is built in the same block (or that
+    has a single definition in the whole body) from a place is a store to that place: rewrite it, so that the rules
+    that look for stores to a field see it."""
+    defs = {}
+    for b, blk in enumerate(fd["blocks"]):
+        if blk.get("cleanup"):
+            continue
+        for i, st in enumerate(blk["stmts"]):
+            if st["s"] == "assign" and not st["place"]["proj"]:
+                defs.setdefault(st["place"]["local"], []).append((b, i, st))
+        t = blk["term"]
+        if t["t"] == "call" and not t["dest"]["proj"]:
+            defs.setdefault(t["dest"]["local"], []).append((b, "t", t))
+    done = 0
+    for b, blk in enumerate(fd["blocks"]):
+        if blk.get("cleanup"):
+            continue
+        for i, st in enumerate(blk["stmts"]):
+            if st["s"] != "assign":
+                continue
+            pl = st["place"]
+            if not pl["proj"] or pl["proj"][0]["p"] != "deref" or len(pl["proj"]) != 1:
+                continue
+            cur = pl["local"]
+            src = None
+            for _ in range(6):
+                # the definition in the same block before the store, else the only definition in the body
+                cand = [d for d in defs.get(cur, []) if d[0] == b and d[1] != "t" and d[1] < i]
+                d = cand[-1] if cand else (defs.get(cur, [None])[0] if len(defs.get(cur, [])) == 1 else None)
+                if d is None or d[1] == "t":
+                    break
+                rv = d[2]["rv"]
+                if rv["r"] == "ref" and rv.get("mut"):
+                    if len(rv["place"]["proj"]) == 1 and rv["place"]["proj"][0]["p"] == "deref":
+                        cur = rv["place"]["local"]          # a re-borrow `&mut *r`
+                        continue
+                    src = rv["place"]
+                    break
+                if rv["r"] == "use" and rv["op"]["k"] in ("move", "copy") and not rv["op"]["place"]["proj"]:
+                    cur = rv["op"]["place"]["local"]
+                    continue
+                break
+            if src is not None and any(e["p"] == "field" for e in src["proj"]):
+                st["place"] = copy.deepcopy(src)
+                st["via_ref"] = True
+                done += 1
+    return done
